@@ -17,7 +17,7 @@ SPEC = {
          "eval": "fun c => let '(s, w, d, op, v, nv, r) := c in check_c02 s w d op v nv 300 r", "per_shard": 20},
     ],
     "classes": CLASSES,
-    "n_quick": 240, "n_thorough": 6000,
+    "n_quick": 240, "n_thorough": 960,
     "level": "proof",
     "what_violation": "response data of a dynamic schema differs from the specification's execution algorithm",
     "rule": ("schemas built with the dynamic-schema API: the type system of harness/src/family.rs (5 objects x 18 fields, interfaces Node/Named, "
